@@ -186,49 +186,7 @@ func voucherModel(x *runCtx, enc []byte, d *lab.Device, cred fdo.DeviceCredentia
 		}
 		return ""
 	}
-	ents := "ok"
-	for _, o := range strings.Split(get("entries"), ";") {
-		if o == "" {
-			continue
-		}
-		var r string
-		switch {
-		case strings.HasPrefix(o, "S:"):
-			r = o[2:]
-		case strings.HasPrefix(o, "K:"):
-			if _, ok := pubs[o[2:]]; ok {
-				r = "ok"
-			} else if _, ok := parseKeyHex(o[2:]); ok {
-				r = "ok"
-			} else {
-				r = "fail"
-			}
-		case strings.HasPrefix(o, "G:"):
-			parts := strings.SplitN(o[2:], ":", 2)
-			pub, ok := pubs[parts[0]]
-			if !ok {
-				pub, ok = parseKeyHex(parts[0])
-			}
-			out := strings.ReplaceAll(parts[1], ",", " ")
-			if strings.HasPrefix(out, "panic") {
-				r = "panic"
-			} else if !ok {
-				r = "fail"
-			} else if primitive(out, pub) == "true" {
-				r = "ok"
-			} else {
-				r = "fail"
-			}
-		}
-		if strings.HasPrefix(r, "panic") {
-			ents = "panic"
-			break
-		}
-		if r != "ok" {
-			ents = "fail"
-			break
-		}
-	}
+	ents := foldObligations(get("entries"), pubs)
 	own := "fail"
 	if _, ok := parseKeyHex(get("owner")); ok {
 		own = "ok"
@@ -591,4 +549,56 @@ func c04Extend(x *runCtx, ov *fdo.Voucher, k lab.Kind, signer, next string, enc 
 			try("wrong-kind-signer", ok, signer, k, next, false)
 		}
 	}
+}
+
+// foldObligations evaluates the model's ordered obligation list the way the code walks it:
+// the first failing obligation decides (fail, or panic), signatures and key parsing are
+// answered by the Go standard library.
+func foldObligations(list string, pubs map[string]crypto.PublicKey) string {
+	for _, o := range strings.Split(list, ";") {
+		if o == "" {
+			continue
+		}
+		var r string
+		switch {
+		case strings.HasPrefix(o, "S:"):
+			r = o[2:]
+		case strings.HasPrefix(o, "K:"):
+			if _, ok := pubs[o[2:]]; ok {
+				r = "ok"
+			} else if _, ok := parseKeyHex(o[2:]); ok {
+				r = "ok"
+			} else {
+				r = "fail"
+			}
+		case strings.HasPrefix(o, "G:"):
+			parts := strings.SplitN(o[2:], ":", 2)
+			pub, ok := pubs[parts[0]]
+			if !ok {
+				pub, ok = parseKeyHex(parts[0])
+			}
+			out := strings.ReplaceAll(parts[1], ",", " ")
+			if strings.HasPrefix(out, "panic") {
+				r = "panic"
+			} else if !ok {
+				r = "fail"
+			} else if primitive(out, pub) == "true" {
+				r = "ok"
+			} else {
+				r = "fail"
+			}
+		}
+		if strings.HasPrefix(r, "panic") {
+			return "panic"
+		}
+		if r != "ok" {
+			return "fail"
+		}
+	}
+	return "ok"
+}
+
+func certParses(der []byte) bool {
+	_, err := x509.ParseCertificate(der)
+	return err == nil
 }
